@@ -171,6 +171,10 @@ def cell_expr(rng, cell, b):
         if b:
             return {"cls": "BatchRepeat", "base": kron(rng, [1] * len(b), [2, 3]), "rep": list(b)}
         return {"cls": "BatchRepeat", "base": kron(rng, [], [2, 3]), "rep": [2]}
+    if c == "CorpusAbsThr":
+        # fixed matrix, eigenvalues 1e-2 * [1, 1.0008, 2, 3]: with the start vector of torch.manual_seed(38) Lanczos stops after 3
+        # iterations (|beta| < 1e-6 ABSOLUTE) while the same matrix times 1e4 runs all 4 (finding ...-breakdown-threshold-2)
+        return {"cls": "Dense", "t": T(torch.tensor(CORPUS_ABS_THR, dtype=F64))}
     if c == "MixScale3":
         # a batch whose middle member has scale 1e-4 (e.g. a kernel with a tiny outputscale) between members of scale 1
         return {"cls": "Dense", "t": T(torch.stack([spd(rng, [], 4), 1e-4 * spd(rng, [], 4), spd(rng, [], 4)]))}
@@ -232,7 +236,12 @@ TRI_CELLS = ["TriL3", "TriU3"]
 FIXED_BATCH = {"RepeatBatch": [()], "ConstMulScalar": [(), (2,)]}
 # batches mixing p.d. and singular members: cell -> (batch shape, indices of the singular members)
 MIX_CELLS = {"MixDense3": ((3,), [1]), "MixDense2": ((2,), [0])}
+CORPUS_ABS_THR = [[0.014665232720432986, -0.005769414075917828, -0.004725208737591208, 0.000525114148659261],
+                  [-0.005769414075917828, 0.026507176622471144, 0.0006574810407077925, -0.0038559051785082886],
+                  [-0.004725208737591208, 0.0006574810407077925, 0.0176787632086139, 0.0012384665529370298],
+                  [0.000525114148659261, -0.0038559051785082886, 0.0012384665529370298, 0.011156827448481994]]
 # cells whose batch is part of the cell (cell_expr ignores the batch argument)
+CORPUS_IDENT_TORCH_SEED = 6
 BUILTIN_BATCH = {"MixDense3": (3,), "MixDense2": (2,), "MixIdent3": (3,), "BlockMixIdent": (), "MixIdentExact3": (3,),
                  "MixScale3": (3,)}
 # SCALE family: one cell per operator class, the whole operator multiplied by s (scale_expr), Lanczos and direct routes
@@ -432,6 +441,14 @@ def enumerate_grid(quick=True):
         add("MixScale3", (3,), q)
     for q in [("root", None, False), ("root_inv", None, False), ("diag", None, False)]:
         add("MixScale3", (3,), q, mcs=0)
+    # Z. CORPUS: deterministic cases (fixed matrix entries: corpus_seed / literal; fixed Lanczos start vector: torch_seed) for
+    #    recorded findings whose reproduction depends on the random draw
+    for q in [("root", "lanczos", False), ("root_inv", "lanczos", False)]:
+        # metamorphic: the same operator times 1e4 with the same start vector must not run MORE Lanczos iterations
+        add("CorpusAbsThr", (), q, scale=0.01, corpus=True, torch_seed=38, rescale=1e4)
+        add("MixIdentExact3", (3,), q, corpus=True, corpus_seed=777, torch_seed=CORPUS_IDENT_TORCH_SEED)
+    for q in [("root", None, False), ("root", "lanczos", False), ("root_inv", None, False)]:
+        add("KronBlk", (), q, mcs=0, mrs=1)         # blocks (2 x 2) larger than the rank bound 1
     # G. batches mixing p.d. members with a singular member, Cholesky-route queries (member-wise jitter), also under
     #    settings.cholesky_jitter(double_value=1e-4)
     for cell, (b, sing) in MIX_CELLS.items():
@@ -500,11 +517,14 @@ def enumerate_grid(quick=True):
 
 def instantiate(rng, item):
     kind = item.get("kind", "plain")
-    expr = cell_expr(rng, item["cell"], [] if item["cell"] in BUILTIN_BATCH else item["batch"])
-    if item.get("scale") is not None:
+    drng = __import__("random").Random(item["corpus_seed"]) if item.get("corpus_seed") is not None else rng
+    expr = cell_expr(drng, item["cell"], [] if item["cell"] in BUILTIN_BATCH else item["batch"])
+    if item.get("scale") is not None and not item.get("corpus"):
         expr = scale_expr(expr, float(item["scale"]))
     case = dict(item)
     case["expr"] = expr
+    if item.get("rescale") is not None:
+        case["expr_rescaled"] = scale_expr(expr, float(item["rescale"]))
     if kind == "catrows":
         # new rows with a cross block of the size of the entries of A; D = B A^-1 B^T + (well-conditioned SPD) keeps C p.d.
         A = opbuild.dense(expr, F64)
